@@ -54,6 +54,13 @@ OneCase(op, as, bw, r, a, cin) ==
 JumpCase(cond, off, sr) ==
   [reg |-> RegsWith((0 :> PC0) @@ (2 :> sr)), set |-> Words(PC0, <<8192 + cond * 1024 + off>>)]
 
+\* source and destination in the same register: @Rn / @Rn+ as the source, Rn or 6(Rn) as the destination; the destination
+\* is evaluated after the auto-increment of the source (SLAU144 3.3: the increment is part of the source fetch)
+SameCase(op, r, as, ad, bw, a, d, cin) ==
+  LET w == op * 4096 + r * 256 + ad * 128 + bw * 64 + as * 16 + r
+      regs == (0 :> PC0) @@ (2 :> SrFor(cin, 0)) @@ (r :> SB)
+  IN [reg |-> RegsWith(regs), set |-> Words(PC0, <<w>> \o (IF ad = 1 THEN <<6>> ELSE <<>>)) \o W16(SB, a) \o W16(SB + 6, d) \o W16(SB + 8, d)]
+
 SrcRegs(as) == IF as = 0 THEN {3, 5, 15} ELSE IF as = 1 THEN {0, 2, 3, 5} ELSE {0, 2, 3, 5, 15}
 DstRegs(ad) == IF ad = 0 THEN {6, 9} ELSE {0, 2, 6}
 
@@ -63,6 +70,9 @@ Init ==
          \E a \in (IF bw = 1 THEN ByteVals ELSE Vals), d \in (IF bw = 1 THEN ByteVals ELSE Vals) :
            /\ ~(sreg = 0 /\ as = 2)
            /\ c = TwoCase(op, sreg, as, ad, bw, dreg, a, d, cin)
+  \/ \E op \in 4..15, as \in 2..3, ad \in 0..1, bw \in 0..1, r \in {1, 5, 15}, cin \in 0..1 :
+       \E a \in (IF bw = 1 THEN ByteVals ELSE Vals), d \in {4660, 255} :
+         c = SameCase(op, r, as, ad, bw, a, d, cin)
   \/ \E op \in 0..6, as \in 0..3, bw \in 0..1, r \in {0, 2, 3, 5, 15}, cin \in 0..1 :
        \E a \in (IF bw = 1 THEN ByteVals ELSE Vals) :
          /\ (r = 0 => as = 3) /\ (r = 2 => as \in {1, 2, 3})
